@@ -164,6 +164,31 @@ def remapNamesHolds (jar : Jar) (ns : Nests) : Option Bool :=
         | .ok out => some (out.map nameView == want)
         | .error _ => some false
 
+/-- `oracle-remap-attrs`: `attrs_renamed` evaluated on one input: with renaming, every applied nest's class carries, as last
+`InnerClasses` entry and (anonymous / local) as `EnclosingMethod`, the attributes with the NEW names -/
+def remapAttrsHolds (jar : Jar) (ns : Nests) : Option Bool :=
+  if (minVersion (classesOf jar)).isNone then none
+  else
+    let kept := keptSpec jar ns
+    let created := createdSpec jar ns
+    match mapTable kept with
+    | none => none
+    | some t =>
+      let f := tableMap t
+      let want := created.map (createdView f) ++ jar.map (renamedView f)
+      if !decide (want.map (·.1)).Nodup ||
+          kept.any (fun n => n.className.head? == some LBRACK || n.enclClass.head? == some LBRACK) then none
+      else
+        match nestJar true jar ns with
+        | .error _ => some false
+        | .ok out =>
+          some (kept.all (fun n =>
+            let cs := (classesOf out).filter (fun c => c.name == f n.className)
+            !cs.isEmpty && cs.all (fun c =>
+              (c.innerClasses.getD []).getLast? == some (renamedInnerClass f n) &&
+              (!(n.kind == .anonymous || n.kind == .local) ||
+                (match renamedEnclMethod f n with | some em => c.enclosingMethod == some em | none => false)))))
+
 /-- following enclosing classes from some nest never leaves the table (the harness's own notion of a cyclic table) -/
 def chainCyclic (ns : Nests) : Bool :=
   let rec walk : Nat → JStr → Bool
@@ -242,6 +267,9 @@ def handleC14 (op : String) (args : List Sexp) : Option Ans :=
   | "oracle-remap-names", [ns, jar] => do
     let ns ← nestsFrom ns; let jar ← jarFrom jar
     pure (verdict (remapNamesHolds jar ns))
+  | "oracle-remap-attrs", [ns, jar] => do
+    let ns ← nestsFrom ns; let jar ← jarFrom jar
+    pure (verdict (remapAttrsHolds jar ns))
   | "oracle-cyclic-err", [ns] => do
     let ns ← nestsFrom ns
     pure (verdict (cyclicErrHolds ns))
